@@ -377,7 +377,16 @@ pub const FRAME_128: usize = 70908;
 /// Single-steps exactly one `Z80::emulate` call (breakpoint on every address)
 pub fn step(emu: &mut Emu) {
     emu.set_debug_interface(VDebug::Always);
+    emu.set_speed(EmulationMode::FrameCount(1));
+    let t0 = emu.verif_frame_clocks();
+    let pc0 = emu.verif_cpu().regs.get_pc();
+    let r0 = emu.verif_cpu().regs.get_r();
     let _ = emu.emulate_frames(Duration::from_secs(1000));
+    // A frame that ended during the previous stop (breakpoint return, or time passed through the clock
+    // hook) is handed over first, without executing anything: then the instruction is still to be run
+    if emu.verif_frame_clocks() == t0 && emu.verif_cpu().regs.get_pc() == pc0 && emu.verif_cpu().regs.get_r() == r0 {
+        let _ = emu.emulate_frames(Duration::from_secs(1000));
+    }
 }
 
 /// Runs until `pc` is hit (checked after every instruction) or `max_frames` frames passed.
